@@ -3,6 +3,8 @@
 // Emits   <op> <w> <cm> <args> => <result>    one line per lane evaluation.
 // Built three times: serial (-DNFL_OPTIMIZED), sse (… -DNTT_SSE -msse4.2), avx2 (… -DNTT_AVX2 -mavx2).
 #include "common.hpp"
+#include <cmath>
+#include <algorithm>
 #include <nfl.hpp>
 
 using namespace vh;
@@ -52,6 +54,35 @@ template <class T> static std::vector<Case<T>> pair_cases(T p, Rng& g, int nrand
       G kp = (G)k * p;
       T y0 = (T)(kp / x);
       for (T y : {y0, (T)(y0 + 1), (T)(y0 + 2)}) if (y < p && x < p) { v.push_back({x, y, 0}); v.push_back({y, x, 0}); }
+    }
+  }
+  // worst case of a division-free quotient estimate (Barrett / Newton word, any variant that works on the high word of the
+  // product): both operands in the top of the range (product, hence every truncation error proportional to it, maximal), the
+  // low word of the integer product close to 2^w (the dropped part maximal) and x*y mod p tiny (no slack: an estimate that is
+  // short by two leaves a remainder >= 2p, one conditional subtraction too few) — and the mirror case x*y mod p close to p.
+  // Constructed: x in the top 1/16, y = e * x^-1 mod p for e in 0..63 and p-1-e; of the ~10^3 candidates the 6 per side with
+  // the largest (low word, product) score are kept.  Every visited row gets them, heavy or not.
+  {
+    using G = typename nfl::params<T>::greater_value_type;
+    const int w = bits<T>();
+    struct Cand { double score; T x, y; };
+    std::vector<Cand> lo, hi;
+    for (int i = 0; i < 10; i++) {
+      T x = (T)(p - 1 - rnd_below<T>(g, (T)(p / 16)));
+      if (x == 0) continue;
+      T ix = (T)invmod(x, p);
+      for (unsigned e = 0; e < 64; e++) for (int side = 0; side < 2; side++) {
+        T r = side ? (T)(p - 1 - e) : (T)e;
+        T y = (T)(((G)r * ix) % p);
+        G prod = (G)x * y;
+        double low = (double)(T)prod / std::ldexp(1.0, w);              // dropped low word / 2^w
+        double mag = (double)y / (double)p;                               // size of the product relative to its maximum
+        (side ? hi : lo).push_back({low + mag, x, y});
+      }
+    }
+    for (auto* L : {&lo, &hi}) {
+      std::sort(L->begin(), L->end(), [](const Cand& a, const Cand& b) { return a.score > b.score; });
+      for (size_t k = 0; k < 6 && k < L->size(); k++) { v.push_back({(*L)[k].x, (*L)[k].y, 0}); v.push_back({(*L)[k].y, (*L)[k].x, 0}); }
     }
   }
   for (auto& c : v) c.c = rnd_below<T>(g, p);
